@@ -168,3 +168,66 @@ Theorem value_guard_panics ENV W I v : (sz I <> sz W \/ al I <> al W) ->
 Proof.
   intros H. unfold Gen.Transparent.wrap, Gen.Transparent.peel. split; guard_tac.
 Qed.
+
+(* ---- the statements of Properties/C13.v ---- *)
+Theorem bundle_refs : forall ENV W I u p, tw_contract W I ->
+  (valid_ref I p -> Gen.Transparent.wrap_ref ENV W I u u p = Ret p /\ Gen.Transparent.wrap_mut ENV W I u u p = Ret p) /\
+  (valid_ref W p -> Gen.Transparent.peel_ref ENV W I u u p = Ret p /\ Gen.Transparent.peel_mut ENV W I u u p = Ret p).
+Proof.
+  intros ENV W I u p HC. split; intros Hv; split.
+  - exact (wrap_ref_id ENV W I u HC p Hv). - exact (wrap_mut_id ENV W I u HC p Hv).
+  - exact (peel_ref_id ENV W I u HC p Hv). - exact (peel_mut_id ENV W I u HC p Hv).
+Qed.
+
+Theorem bundle_roundtrip_ref : forall ENV W I u p, tw_contract W I ->
+  (valid_ref I p -> (q <- Gen.Transparent.wrap_ref ENV W I u u p ;; Gen.Transparent.peel_ref ENV W I u u q) = Ret p) /\
+  (valid_ref W p -> (q <- Gen.Transparent.peel_ref ENV W I u u p ;; Gen.Transparent.wrap_ref ENV W I u u q) = Ret p).
+Proof.
+  intros ENV W I u p HC. split; intros Hv.
+  - exact (wrap_peel_ref ENV W I u HC p Hv). - exact (peel_wrap_ref ENV W I u HC p Hv).
+Qed.
+
+Theorem bundle_slices : forall ENV W I s, tw_contract W I ->
+  (valid_slice I s -> Gen.Transparent.wrap_slice ENV W I s = Ret s /\ Gen.Transparent.wrap_slice_mut ENV W I s = Ret s) /\
+  (valid_slice W s -> Gen.Transparent.peel_slice ENV W I s = Ret s /\ Gen.Transparent.peel_slice_mut ENV W I s = Ret s).
+Proof.
+  intros ENV W I s HC. split; intros Hv; split.
+  - exact (wrap_slice_id ENV W I HC s Hv). - exact (wrap_slice_mut_id ENV W I HC s Hv).
+  - exact (peel_slice_id ENV W I HC s Hv). - exact (peel_slice_mut_id ENV W I HC s Hv).
+Qed.
+
+Theorem bundle_values : forall ENV W I v, tw_contract W I ->
+  (N.of_nat (List.length v) = sz I -> Gen.Transparent.wrap ENV W I v = Ret v) /\
+  (N.of_nat (List.length v) = sz W -> Gen.Transparent.peel ENV W I v = Ret v).
+Proof.
+  intros ENV W I v HC. split; intros Hl.
+  - exact (wrap_id ENV W I HC v Hl). - exact (peel_id ENV W I HC v Hl).
+Qed.
+
+Theorem bundle_containers : forall ENV W I u c,
+  Gen.Alloc.wrap_vec ENV W I c = Ret c /\ Gen.Alloc.peel_vec ENV W I c = Ret c /\
+  Gen.Alloc.wrap_box ENV W I u u c = Ret c /\ Gen.Alloc.peel_box ENV W I u u c = Ret c /\
+  Gen.Alloc.wrap_rc ENV W I u u c = Ret c /\ Gen.Alloc.peel_rc ENV W I u u c = Ret c /\
+  Gen.Alloc.wrap_arc ENV W I u u c = Ret c /\ Gen.Alloc.peel_arc ENV W I u u c = Ret c.
+Proof.
+  intros ENV W I u c.
+  exact (conj (wrap_vec_id ENV W I c) (conj (peel_vec_id ENV W I c)
+        (conj (wrap_box_id ENV W I u c) (conj (peel_box_id ENV W I u c)
+        (conj (wrap_rc_id ENV W I u c) (conj (peel_rc_id ENV W I u c)
+        (conj (wrap_arc_id ENV W I u c) (peel_arc_id ENV W I u c)))))))).
+Qed.
+
+Theorem bundle_guards : forall ENV W I uW uI p c s v,
+  (uW <> uI -> Gen.Transparent.wrap_ref ENV W I uW uI p = Panic W_assert /\ Gen.Transparent.peel_ref ENV W I uW uI p = Panic W_assert /\
+               Gen.Alloc.wrap_box ENV W I uW uI c = Panic W_assert /\ Gen.Alloc.peel_rc ENV W I uW uI c = Panic W_assert) /\
+  ((sz I <> sz W \/ al I <> al W) ->
+      Gen.Transparent.wrap_slice ENV W I s = Panic W_assert /\ Gen.Transparent.peel_slice ENV W I s = Panic W_assert /\
+      Gen.Transparent.wrap ENV W I v = Panic W_assert /\ Gen.Transparent.peel ENV W I v = Panic W_assert).
+Proof.
+  intros ENV W I uW uI p c s v. split; intros H.
+  - destruct (ptr_guard_panics ENV W I uW uI p H) as (a & _ & b & _).
+    destruct (cont_guard_panics ENV W I uW uI c H) as (d & _ & _ & e & _). auto.
+  - destruct (slice_guard_panics ENV W I s H) as (a & b & _).
+    destruct (value_guard_panics ENV W I v H) as (d & e). auto.
+Qed.
+
